@@ -3,7 +3,8 @@ from ..build import config_name
 from ..ir import CASTS, indirect_targets
 from ..mem import addr_str
 from ..summary import Analyzer, fact_str
-from ..initflow import InitFlow, lf_str
+from ..initflow import InitFlow, lf_str, lf_is_const
+from .c05 import Ctx5
 from ..report import Report
 from .common import public_functions, construct, fsite, csite, handle_type, direct_calls
 from . import c14
@@ -196,22 +197,45 @@ def check_loader(prog, an, rep, cn, f, key_args):
         rep.ok("C10.R4", cons + ":narrowing", fsite(f), "no lossy narrowing between key-byte loads and tweakey stores (%d key-derived values)" % len(der), cfg=cn)
 
 
+class _NoTerms:
+    termcache = {}
+
+
+class _LF(Ctx5):
+    def __init__(self, f):
+        self.f = f
+        self.vals = {}
+        self.fa = _NoTerms()
+
+    def field(self, op):
+        return None
+
+
 def rounds_paths(prog, an, f, block):
-    """paths of the round-count selector: [(facts on size as interval, tweak null?, rounds constant)]"""
+    """paths of the round-count selector: [(interval of the key length, tweak null?, rounds constant)].
+    Guards are evaluated as linear forms along the path, so a test on `remaining = key_size - BLOCK` (or on a
+    value merged from both) constrains key_size just like a test on key_size itself."""
     am = an.summaries[f.key].fa.am
+    E = _LF(f)
     out = []
-    size_arg = None
     for path in enum_paths(f):
         lo, hi = block, 3 * block
         tweak = None
         rounds = None
+        env = {}
         for n, b in enumerate(path):
+            prev = path[n - 1] if n else None
             for i in f.bbmap[b]["insts"]:
+                if i["op"] == "phi" and prev is not None:
+                    for v, pb in zip(i["ops"], i["inblocks"]):
+                        if pb == prev:
+                            env[i["id"]] = v
                 if i["op"] == "store":
                     a = am.of(i["ops"][1])
                     if a is not None and a.root == ("arg", 0) and a.segs[-1].ty and a.segs[-1].off is not None and \
-                            prog.describe(a.segs[-1].ty, a.segs[-1].off)[-1:] == ["rounds"] and i["ops"][0][0] == "c":
-                        rounds = int(i["ops"][0][1])
+                            prog.describe(a.segs[-1].ty, a.segs[-1].off)[-1:] == ["rounds"]:
+                        v = E.lf(i["ops"][0], env)
+                        rounds = v[0] if v is not None and lf_is_const(v) else rounds
                 if i["op"] == "br" and len(i["succs"]) == 2 and n + 1 < len(path) and i["ops"][0][0] == "i":
                     truth = path[n + 1] == i["succs"][0]
                     c = f.insts[i["ops"][0][1]]
@@ -221,25 +245,44 @@ def rounds_paths(prog, an, f, block):
                     if not truth:
                         p = {"eq": "ne", "ne": "eq", "ult": "uge", "uge": "ult", "ule": "ugt", "ugt": "ule"}.get(p, p)
                     x, y = c["ops"]
-                    while x[0] == "i" and f.insts[x[1]]["op"] in CASTS | {"zext"}:
-                        x = f.insts[x[1]]["ops"][0]
-                    if x[0] == "a" and y[0] == "n":
+                    x0 = x
+                    while x0[0] == "i" and (x0[1] in env or f.insts[x0[1]]["op"] in CASTS | {"zext"}):
+                        x0 = env[x0[1]] if x0[1] in env else f.insts[x0[1]]["ops"][0]
+                    if x0[0] == "a" and y[0] == "n":
+                        if tweak is not None and tweak != (p == "eq"):
+                            lo, hi = 1, 0       # the same pointer tested both ways: infeasible path
                         tweak = (p == "eq")     # tweak pointer is NULL
-                    elif x[0] == "a" and y[0] == "c":
-                        size_arg = x[1]
-                        v = int(y[1])
-                        if p == "eq":
-                            lo, hi = max(lo, v), min(hi, v)
-                        elif p == "ne" and lo == v:
-                            lo = v + 1
-                        elif p == "ult":
-                            hi = min(hi, v - 1)
-                        elif p == "ule":
-                            hi = min(hi, v)
-                        elif p == "ugt":
-                            lo = max(lo, v + 1)
-                        elif p == "uge":
-                            lo = max(lo, v)
+                        continue
+                    lx, ly = E.lf(x, env), E.lf(y, env)
+                    if lx is None or ly is None:
+                        continue
+                    if lf_is_const(lx) and not lf_is_const(ly):
+                        lx, ly = ly, lx
+                        p = {"ult": "ugt", "ugt": "ult", "ule": "uge", "uge": "ule"}.get(p, p)
+                    # size + k  pred  v   with a single parameter atom of coefficient 1; no wrap because the
+                    # interval starts at BLOCK and -k never exceeds it
+                    if not lf_is_const(ly) or len(lx[1]) != 1 or lx[1][0][1] != 1 or lx[1][0][0][0] != "a" or -lx[0] > block:
+                        if lf_is_const(lx) and lf_is_const(ly):
+                            holds = {"eq": lx[0] == ly[0], "ne": lx[0] != ly[0], "ult": lx[0] < ly[0], "ule": lx[0] <= ly[0],
+                                     "ugt": lx[0] > ly[0], "uge": lx[0] >= ly[0]}.get(p, True)
+                            if not holds:
+                                lo, hi = 1, 0       # infeasible path
+                        continue
+                    v = ly[0] - lx[0]
+                    if p == "eq":
+                        lo, hi = max(lo, v), min(hi, v)
+                    elif p == "ne" and lo == v:
+                        lo = v + 1
+                    elif p == "ne" and hi == v:
+                        hi = v - 1
+                    elif p == "ult":
+                        hi = min(hi, v - 1)
+                    elif p == "ule":
+                        hi = min(hi, v)
+                    elif p == "ugt":
+                        lo = max(lo, v + 1)
+                    elif p == "uge":
+                        lo = max(lo, v)
         if rounds is not None:
             out.append((lo, hi, tweak, rounds))
     return out
